@@ -25,7 +25,7 @@ fn cfg() -> &'static Cfg {
     C.get_or_init(|| {
         let l = lang::zoo("mini");
         let tags_q = l.query_src("tags.scm").expect("zoo/mini/queries/tags.scm");
-        let locals_q = l.query_src("locals.scm").expect("zoo/mini/queries/locals.scm");
+        let locals_q = l.query_src("tags-locals.scm").expect("zoo/mini/queries/tags-locals.scm");
         let tags = TagsConfiguration::new(l.language.clone(), &tags_q, &locals_q).expect("tags configuration");
         let query = Query::new(&l.language, &format!("{locals_q}{tags_q}")).unwrap();
         let mut locals_patterns = 0;
@@ -92,6 +92,17 @@ fn tags_doc(t: &mut Tape) -> Vec<u8> {
             }
             3 => {
                 out.push_str(*t.pick(&["/* ✓ */", "/* 😀😀 */", "/* c */"]));
+            }
+            4 if t.pct(50) => {
+                // assignment scopes that end with a name (x = x, a = b = a)
+                out.push_str(*t.pick(VARS));
+                out.push_str(" = ");
+                if t.pct(30) {
+                    out.push_str(*t.pick(VARS));
+                    out.push_str(" = ");
+                }
+                out.push_str(*t.pick(VARS));
+                out.push(';');
             }
             4 => {
                 out.push_str(*t.pick(VARS));
@@ -384,7 +395,10 @@ impl Check for C18 {
                     };
                     if visible {
                         possibly = true;
-                        if *stmt_end <= tag_start {
+                        // the definition's match is certainly delivered before the reference's: its statement ends
+                        // before the tag node starts, or (same statement) the defining name ends before the name
+                        // starts and the locals patterns come first in the query
+                        if *stmt_end <= tag_start || d.1 <= name.0 {
                             definitely = true;
                         }
                     }
